@@ -99,9 +99,19 @@ Definition expect (op : bop) (ka kb : kind) (ta tb : ty) (same_alg dims_differ :
       (* a vocabulary-less pointer carries no dimensionality / algebra in its
          type: a length mismatch surfaces later as a NumPy / Nengo error, an
          algebra mismatch with the other operand's vocabulary as ValueError *)
-      if dims_differ then Free else
+      if dims_differ then
+        (* two Semantic Pointers of unequal length never combine: the vector operation itself fails
+           (ValueError from the algebra or NumPy) as soon as the expression is written; compare is left
+           free (a zero operand short-circuits to 0) *)
+        (if kind_eqb ka KSp && kind_eqb kb KSp && supported op ka kb t
+            && match op with PAdd | PSub | PMul | PDot | PMse => true | _ => false end
+         then MustFail else Free)
+      else
       if (is_any ta || is_any tb) && negb same_alg && negb (kind_eqb ka KSp && kind_eqb kb KSp && negb (is_voc t))
       then Free else
+      (* a dynamic operand without vocabulary (reinterpret(x) with no target) combined with another pointer operand
+         that brings no vocabulary either: there is no algebra to build a network with; not claimed *)
+      if (kind_eqb ka KDyn || kind_eqb kb KDyn) && is_ptr_kind ka && is_ptr_kind kb && negb (is_voc t) then Free else
       if kind_eqb ka KSp && kind_eqb kb KSp && negb (is_voc t) && negb same_alg
       then (if supported op ka kb t then MustReject else Free)
       else if supported op ka kb t then MustAccept (result_type op t) else Free
